@@ -6,6 +6,7 @@ addresses, checksum modulus and bit expressions are regenerated from /repo (Gen/
 import CfVerif.Proofs.C14
 import CfVerif.Proofs.C14Ow
 import CfVerif.Proofs.C14Lh
+import CfVerif.Proofs.C14Deck
 namespace CfVerif.C14
 open CfVerif
 
@@ -78,6 +79,29 @@ theorem gen_lh_memory : Gen.C14.lhNewDataCompares = ["mem.id == self.id", "addr 
 calibration area (so `new_data` picks the right parser) -/
 theorem gen_lh_pages : Gen.C14.lhSizeGeometry ≤ Gen.C14.lhPageSize ∧ Gen.C14.lhSizeCalibration ≤ Gen.C14.lhPageSize ∧
     Gen.C14.lhGeoStart + Gen.C14.lhNrOfChannels * Gen.C14.lhPageSize ≤ Gen.C14.lhCalibStart := by decide
+
+theorem gen_deck : Gen.C14.deckProps = ["is_valid: self._bit_field1 & self.MASK_IS_VALID != 0",
+      "is_started: self._bit_field1 & self.MASK_IS_STARTED != 0", "supports_read: self._bit_field1 & self.MASK_SUPPORTS_READ != 0",
+      "supports_write: self._bit_field1 & self.MASK_SUPPORTS_WRITE != 0",
+      "supports_fw_upgrade: self._bit_field1 & self.MASK_SUPPORTS_UPGRADE != 0",
+      "is_fw_upgrade_required: self._bit_field1 & self.MASK_UPGRADE_REQUIRED != 0",
+      "is_bootloader_active: self._bit_field1 & self.MASK_BOOTLOADER_ACTIVE != 0",
+      "supports_reset_to_fw: self._bit_field2 & self.MASK_SUPPORTS_RESET_TO_FW != 0",
+      "supports_reset_to_bootloader: self._bit_field2 & self.MASK_SUPPORTS_RESET_TO_BOOTLOADER != 0"] ∧
+    Gen.C14.deckBitsArgs = ["data[0:2]"] ∧ Gen.C14.deckRecArgs = ["data[2:]"] ∧
+    Gen.C14.deckBitsTargets = ["self._bit_field1", "self._bit_field2"] ∧
+    Gen.C14.deckRecTargets = ["self.required_hash", "self.required_length", "self._base_address", "_name"] ∧
+    Gen.C14.deckNameSrc = "_name.split(b'\\x00')[0].decode()" ∧ Gen.C14.deckParseExcept = "Exception" ∧
+    Gen.C14.deckParseHandler = ["self._bit_field1 = 0", "self._bit_field2 = 0"] ∧
+    Gen.C14.deckParseTests = ["self.is_valid"] := by decide
+theorem gen_deck_info : Gen.C14.deckVersionArgs = ["data[0:1]"] ∧ Gen.C14.deckInfoCompares = ["version != self.SUPPORTED_VERSION"] ∧
+    Gen.C14.deckLoopIter = "range(self.MAX_NR_OF_DECK_MEM_INFOS)" ∧ Gen.C14.deckParseCall = ["data[start:end]"] ∧
+    Gen.C14.deckInfoTests = ["version != self.SUPPORTED_VERSION", "deck_memory.is_valid"] ∧
+    Gen.C14.deckNewDataCompares = ["mem.id == self.id", "addr == self.INFO_SECTION_ADDRESS"] ∧
+    Gen.C14.deckNewDataExcept = ["RuntimeError"] ∧
+    Gen.C14.deckQueryRead = ["self", "self.INFO_SECTION_ADDRESS", "self.SIZE_OF_INFO_SECTION"] ∧
+    Gen.C14.deckSizeOfInfoSection = Gen.C14.deckSizeOfVersion + Gen.C14.deckMaxNrOfDeckMemInfos * Gen.C14.deckSizeOfDeckMemInfo := by
+  decide
 
 /-! ## EEPROM radio configuration -/
 
@@ -261,6 +285,33 @@ theorem lh_config_roundtrip (gs : List (Nat × Geo)) (cs : List (Nat × Calib)) 
 example : geoImage ⟨⟨0x3F800000, 0, 0xBF800000⟩, ⟨0x7F7FFFFF, 1, 0x80000000⟩, ⟨0, 0, 0⟩, ⟨0x7FC00000, 0x7F800000, 0xFF800000⟩, true⟩ =
     .ok [0,0,128,63, 0,0,0,0, 0,0,128,191,  255,255,127,127, 1,0,0,0, 0,0,0,128,  0,0,0,0, 0,0,0,0, 0,0,0,0,
          0,0,192,127, 0,0,128,127, 0,0,128,255,  1] := by decide
+
+/-! ## Deck memory info section -/
+
+/-- An info section produced by the device (version 3, eight 32-byte records; Spec/C14 `deckSection`) parses to
+exactly the records whose valid bit is set, under their indices, each with the bit fields, required hash and length,
+base address, name and command base address the device encoded - whatever follows the section in the buffer. -/
+theorem deck_info_parse (recs : List DeckRec) (hlen : recs.length = 8) (hwf : ∀ r ∈ recs, r.WF) (post : List UInt8) :
+    deckParseInfo (deckSection recs ++ post) = .ok (.decks (deckExpected recs 0)) :=
+  deck_info_parse_aux recs hlen hwf post
+
+/-- All 2^7 x 2^2 bit-field combinations: each of the nine boolean properties of a listed deck is exactly the flag the
+device encoded at the firmware's bit position. -/
+theorem deck_flags (r : DeckRec) (i : Nat) :
+    (r.info i).flags = [r.isValid, r.isStarted, r.supportsRead, r.supportsWrite, r.supportsUpgrade, r.upgradeRequired,
+      r.bootloaderActive, r.resetToFw, r.resetToBootloader] :=
+  (deck_flags_all r.isValid r.isStarted r.supportsRead r.supportsWrite r.supportsUpgrade r.upgradeRequired
+    r.bootloaderActive r.resetToFw r.resetToBootloader).1
+
+/-- Any other version byte is reported through the failure path, whatever follows. -/
+theorem deck_info_version_rejected (v : UInt8) (hv : v.toNat ≠ Gen.C14.deckSupportedVersion) (rest : List UInt8) :
+    deckParseInfo (v :: rest) = .ok (.unsupported v.toNat) := deck_unsupported_aux v hv rest
+
+example : (⟨true, true, false, true, false, false, true, false, true, 0xDEADBEEF, 1234, 0x10000000, [0x62, 0x63, 0x41, 0x49]⟩ : DeckRec).WF := by
+  refine ⟨by decide, by decide, by decide, by decide, ?_⟩
+  intro b hb
+  simp at hb
+  rcases hb with rfl | rfl | rfl | rfl <;> decide
 
 example : i2cImage { version := 1, channel := 80, speed := 2, pitch := 0, roll := 0x3f800000, address := some 0xE7E7E7E7E7 } =
     .ok [48, 120, 66, 67, 1, 80, 2, 0, 0, 0, 0, 0, 0, 128, 63, 231, 231, 231, 231, 231, 194] := by decide
